@@ -408,7 +408,7 @@ def run_model(scenarios, tag="model", **kw):
 def comparable(lines):
     """drop info lines; canonicalise the one place where the code's order is a heap's internal iteration order:
     the block of MessageDropped entries logged by one crash_node call is sorted"""
-    out = [l for l in lines if l and not l.startswith("#") and not l.startswith(("XINV ", "XCALL ", "XEV ", "XSIMT ", "XSNAPT ", "XTM "))]
+    out = [l for l in lines if l and not l.startswith("#") and not l.startswith(("XINV ", "XCALL ", "XEV ", "XSIMT ", "XSNAPT ", "XTM ", "XLOG "))]
     res = []
     i = 0
     while i < len(out):
